@@ -3,6 +3,7 @@ package props
 import (
 	"go/ast"
 	"go/types"
+	"strings"
 
 	"daecheck/internal/core"
 
@@ -134,4 +135,99 @@ func indexByte(s string, b byte) int {
 		}
 	}
 	return len(s)
+}
+
+// armedReads decides the converse of PAIR.deadline: in a function that arms a
+// read deadline on a connection for a detection window, every read from that
+// connection that can follow an arm is dominated by an arm — the deadline is
+// not installed under a condition (a flag, a first-time test) that later reads
+// of the same window bypass while the disarm still runs after each of them.
+func armedReads(c *Ctx, rule string, us []*core.Func) (reads int) {
+	for _, f := range us {
+		info := f.Info()
+		g := f.Graph()
+		keys := map[string]bool{}
+		isArmOn := func(key string) func(ast.Node) bool {
+			return func(n ast.Node) bool {
+				found := false
+				ownCalls(n, func(call *ast.CallExpr, deferred bool) {
+					recv, name, ok := methodCall(call)
+					if !ok || deferred || len(call.Args) != 1 || (name != "SetReadDeadline" && name != "SetDeadline") {
+						return
+					}
+					if isZeroTimeLit(info, call.Args[0]) || core.ExprStr(recv) != key {
+						return
+					}
+					found = true
+				})
+				return found
+			}
+		}
+		for _, b := range g.CFG.Blocks {
+			if !b.Live {
+				continue
+			}
+			for _, n := range b.Nodes {
+				ownCalls(n, func(call *ast.CallExpr, deferred bool) {
+					recv, name, ok := methodCall(call)
+					if ok && !deferred && len(call.Args) == 1 && (name == "SetReadDeadline" || name == "SetDeadline") && !isZeroTimeLit(info, call.Args[0]) {
+						if f.Decl != nil && isDeadlineSetter(f.Decl.Name.Name) {
+							return // forwarder
+						}
+						keys[core.ExprStr(recv)] = true
+					}
+				})
+			}
+		}
+		for key := range keys {
+			arm := isArmOn(key)
+			isRead := func(n ast.Node) bool {
+				found := false
+				ownCalls(n, func(call *ast.CallExpr, deferred bool) {
+					if deferred {
+						return
+					}
+					recv, name, ok := methodCall(call)
+					if ok && core.ExprStr(recv) == key && (name == "Read" || name == "ReadFrom") {
+						found = true
+					}
+					if cal := core.Callee(info, call); cal != nil && strings.Contains(cal.Name(), "Read") && !strings.Contains(cal.Name(), "Deadline") {
+						for _, a := range call.Args {
+							if core.ExprStr(a) == key {
+								found = true
+							}
+						}
+					}
+				})
+				return found
+			}
+			for _, rp := range g.Find(isRead) {
+				// in scope only if some arm can precede it
+				after := false
+				for _, ap := range g.Find(arm) {
+					if _, _, r := g.ReachesAvoiding(ap.After(), func(ast.Node) bool { return false }, func(n ast.Node) bool { return n == rp.Node() }); r {
+						after = true
+					}
+				}
+				if !after {
+					continue
+				}
+				reads++
+				c.R.Saw(f)
+				base := f.Name
+				if f.Lit != nil {
+					base = f.Name[:indexByte(f.Name, '$')]
+				}
+				target := rp.Node()
+				_, tr, reach := g.ReachesAvoiding(g.Entry(), arm, func(n ast.Node) bool { return n == target })
+				construct := "read-of-" + key + "-is-armed@" + base
+				if !reach {
+					c.R.Checkf(rule, construct, c.pos(target.Pos()), true, "every path to this read of %s passes an arm of its read deadline", key)
+				} else {
+					c.R.Checkf(rule, construct, c.pos(target.Pos()), false, "%s reads from %s at %s on a path (lines %s) that does not arm the read deadline although the function arms it elsewhere and disarms after the read: a later read of the same detection window blocks without a deadline", base, key, c.pos(target.Pos()), traceStr(c.P, tr))
+				}
+			}
+		}
+	}
+	return reads
 }
